@@ -9,7 +9,7 @@ KnownTypes ==
                "m.room.canonical_alias", "m.room.aliases", "m.room.history_visibility", "m.room.guest_access", "m.room.encryption",
                "m.room.pinned_events", "m.room.server_acl", "m.room.third_party_invite", "m.room.tombstone", "m.space.child", "m.space.parent"},
     message_like |-> {"m.room.message", "m.room.redaction", "m.reaction", "m.sticker", "m.room.encrypted", "m.call.invite", "m.call.answer",
-                      "m.call.candidates", "m.call.hangup", "m.call.select_answer", "m.call.reject", "m.call.negotiate",
+                      "m.call.candidates", "m.call.hangup", "m.call.select_answer", "m.call.reject", "m.call.negotiate", "m.call.sdp_stream_metadata_changed",
                       "m.key.verification.start", "m.key.verification.accept", "m.key.verification.key", "m.key.verification.mac",
                       "m.key.verification.cancel", "m.key.verification.done", "m.key.verification.ready"},
     ephemeral |-> {"m.typing", "m.receipt"},
@@ -41,9 +41,11 @@ Targets(kind, format) ==
 Dispatch(r) ==
   /\ r.target \in Targets(r.kind, r.format)
   /\ r.ok                                                      \* spec-shaped events deserialize
-  /\ (r.known <=> IsKnown(r.kind, r.type, r.wildcard))          \* variant by `type`, unknown types -> custom variant
+  \* variant by `type`, unknown types -> custom variant; a declared alias spelling (unstable prefix) is not a type of the
+  \* specification: whether it gets the dedicated variant is left open, everything else must still hold for it
+  /\ (r.alias \/ (r.known <=> IsKnown(r.kind, r.type, r.wildcard)))
   /\ (r.redacted_out <=> (r.redacted_in /\ Redactable(r.kind))) \* unsigned.redacted_because -> redacted variant
-  /\ r.type_out = r.type                                        \* the type string survives (wildcard suffix included)
+  /\ (r.alias \/ r.type_out = r.type)                           \* the type string survives (wildcard suffix included)
   /\ r.acc_ok                                                   \* sender, ids, timestamp, state key as in the JSON
 ContentLaws(r) ==
   r.hascontent => (r.fix_ok /\ r.nodup /\ r.subsumes /\ r.order_indep)
